@@ -293,6 +293,7 @@ _poll_add_(struct qb_loop *l,
 	struct qb_poll_entry *pe;
 	uint32_t install_pos;
 	int32_t res = 0;
+	int32_t i;
 	struct qb_poll_source *s;
 
 	if (l == NULL) {
@@ -300,6 +301,22 @@ _poll_add_(struct qb_loop *l,
 	}
 
 	s = (struct qb_poll_source *)l->fd_source;
+
+	/*
+	 * qb_loop_poll_mod() and qb_loop_poll_del() find an entry by its
+	 * descriptor number: two live entries for one number (the
+	 * descriptor was closed and the number reused without a
+	 * qb_loop_poll_del()) would make them act on the stale one.
+	 * Refuse as epoll does for a descriptor it already knows.
+	 */
+	for (i = 0; i < s->poll_entry_count; i++) {
+		assert(qb_array_index(s->poll_entries, i, (void **)&pe) == 0);
+		if (pe->ufd.fd == fd &&
+		    (pe->state == QB_POLL_ENTRY_ACTIVE ||
+		     pe->state == QB_POLL_ENTRY_JOBLIST)) {
+			return -EEXIST;
+		}
+	}
 
 	install_pos = _get_empty_array_position_(s);
 
